@@ -179,15 +179,18 @@ class ModelDeque:
     self.cap = cap
     self.q = []
     self.deferred = []
+    self.overflowed = False
 
   def post_fifo(self, x):
     if len(self.q) >= self.cap:
+      self.overflowed = True
       return False
     self.q.append(x)
     return True
 
   def post_lifo(self, x):
     if len(self.q) >= self.cap:
+      self.overflowed = True
       return False
     self.q.insert(0, x)
     return True
